@@ -7,40 +7,72 @@ use slotted_egraphs::*;
 
 fn slots_sx(a: &AppliedId) -> Sx { let mut s: Vec<Slot> = a.slots().into_iter().collect(); s.sort(); set_sx(s.into_iter()) }
 
+fn prog_sx<A: Analysis<LV>>(eg: &EGraph<LV, A>) -> Sx {
+    let p = eg.progress();
+    lst(vec![sym("prog"), num(p.number_of_classes as u64), num(p.number_of_live_classes as u64), num(p.sum_of_slots as u64), num(p.sum_of_symmetries as u64)])
+}
+
+/// look up, then insert, every probe (generic in the analysis: C09 quantifies over all reachable e-graphs)
+fn run_probes<A: Analysis<LV>>(eg: &mut EGraph<LV, A>, handles: &[AppliedId], probes: &[Sx], v: &mut Vec<Sx>) {
+    for p in probes {
+        let pl = p.as_lst();
+        let orig: Option<usize> = match &pl[2] { Sx::Num(n) => Some(*n as usize), _ => None };
+        let t = dec_rterm(&pl[3]);
+        let o = std::panic::catch_unwind(std::panic::AssertUnwindSafe(|| {
+            let p0 = prog_sx(eg); let n0 = eg.total_number_of_nodes();
+            let lk = lookup_rec_expr(&t, eg);
+            let pure = prog_sx(eg) == p0 && eg.total_number_of_nodes() == n0;
+            let c0 = eg.progress().number_of_classes;
+            let a = eg.add_expr(t.clone());
+            let c1 = eg.progress().number_of_classes; let n1 = eg.total_number_of_nodes();
+            let lk_sx = match &lk {
+                Some(x) => lst(vec![sym("found"), slots_sx(&eg.find_applied_id(x)), sbool(eg.eq(x, &a)),
+                                    match orig { Some(k) => sbool(eg.eq(x, &handles[k])), None => sym("na") }]),
+                None => sym("absent"),
+            };
+            lst(vec![sym("p"), lk_sx, sbool(pure), num((c1 - c0) as u64), num((n1 as i64 - n0 as i64).unsigned_abs()),
+                     slots_sx(&eg.find_applied_id(&a)), match orig { Some(k) => sbool(eg.eq(&a, &handles[k])), None => sym("na") }])
+        }));
+        match o {
+            Ok(x) => v.push(x),
+            Err(_) => { let (loc, msg) = take_panic().unwrap_or_default(); v.push(lst(vec![sym("err"), sym(panic_kind(&msg)), sym(&loc.replace(' ', "_").replace("/repo/", ""))])); break; }
+        }
+    }
+}
+
+fn res_sx(err: &Option<(usize, String, String)>) -> Sx {
+    match err {
+        Some((oi, kind, loc)) => lst(vec![sym("res"), sym("err"), num(*oi as u64), sym(kind), sym(&loc.replace(' ', "_").replace("/repo/", ""))]),
+        None => lst(vec![sym("res"), sym("ok")]),
+    }
+}
+
+fn run_with_analysis<A: crate::eg14::An>(c: &Sx) -> Sx {
+    let mut h = crate::eg14::run_history_a::<A>(c, |_, _| {});
+    let mut v = vec![sym("obs"), res_sx(&h.err)];
+    if h.err.is_some() { return lst(v); }
+    let probes = c.as_lst()[5].as_lst()[1..].to_vec();
+    let hs = h.handles.clone();
+    run_probes(&mut h.eg, &hs, &probes, &mut v);
+    lst(v)
+}
+
 pub fn run_case(case: &Sx) -> Sx {
     let c = case.clone();
     let r = in_fresh_thread(move || {
+        // (an K) as 7th element: the same probes on an e-graph that carries an analysis (0 MinSize, 2 Depth)
+        let an: Option<u64> = c.as_lst().get(6).and_then(|e| match e { Sx::Lst(l) if l.len() == 2 && l[0].as_sym() == "an" => Some(l[1].as_num()), _ => None });
+        match an {
+            Some(0) => return run_with_analysis::<crate::eg14::MinSize>(&c),
+            Some(_) => return run_with_analysis::<crate::eg14::Depth>(&c),
+            None => {}
+        }
         let mut h = run_history(&c, |_, _| {});
-        let mut v = vec![sym("obs")];
-        match &h.err {
-            Some((oi, kind, loc)) => { v.push(lst(vec![sym("res"), sym("err"), num(*oi as u64), sym(kind), sym(&loc.replace(' ', "_").replace("/repo/", ""))])); return lst(v); }
-            None => v.push(lst(vec![sym("res"), sym("ok")])),
-        }
+        let mut v = vec![sym("obs"), res_sx(&h.err)];
+        if h.err.is_some() { return lst(v); }
         let probes = c.as_lst()[5].as_lst()[1..].to_vec();
-        for p in probes {
-            let pl = p.as_lst();
-            let orig: Option<usize> = match &pl[2] { Sx::Num(n) => Some(*n as usize), _ => None };
-            let t = dec_rterm(&pl[3]);
-            let o = std::panic::catch_unwind(std::panic::AssertUnwindSafe(|| {
-                let p0 = progress_sx(&h.eg); let n0 = h.eg.total_number_of_nodes();
-                let lk = lookup_rec_expr(&t, &h.eg);
-                let pure = progress_sx(&h.eg) == p0 && h.eg.total_number_of_nodes() == n0;
-                let c0 = h.eg.progress().number_of_classes;
-                let a = h.eg.add_expr(t.clone());
-                let c1 = h.eg.progress().number_of_classes; let n1 = h.eg.total_number_of_nodes();
-                let lk_sx = match &lk {
-                    Some(x) => lst(vec![sym("found"), slots_sx(&h.eg.find_applied_id(x)), sbool(h.eg.eq(x, &a)),
-                                        match orig { Some(k) => sbool(h.eg.eq(x, &h.handles[k])), None => sym("na") }]),
-                    None => sym("absent"),
-                };
-                lst(vec![sym("p"), lk_sx, sbool(pure), num((c1 - c0) as u64), num((n1 as i64 - n0 as i64).unsigned_abs()),
-                         slots_sx(&h.eg.find_applied_id(&a)), match orig { Some(k) => sbool(h.eg.eq(&a, &h.handles[k])), None => sym("na") }])
-            }));
-            match o {
-                Ok(x) => v.push(x),
-                Err(_) => { let (loc, msg) = take_panic().unwrap_or_default(); v.push(lst(vec![sym("err"), sym(panic_kind(&msg)), sym(&loc.replace(' ', "_").replace("/repo/", ""))])); break; }
-            }
-        }
+        let hs = h.handles.clone();
+        run_probes(&mut h.eg, &hs, &probes, &mut v);
         lst(v)
     });
     r.unwrap_or_else(|_| sym("harness-thread-panic"))
@@ -78,7 +110,24 @@ pub fn gen(a: &Args) -> Vec<String> {
     let mut cases = vec![];
     for c in 0..a.count {
         let mut rng = Rng::new(a.seed, c);
-        let (terms, ops, motif) = gen_history(&mut rng, false);
+        let with_an = a.extra.iter().any(|x| x == "an");
+        let mut planted: Option<u64> = None;
+        let (mut terms, mut ops, motif) = gen_history(&mut rng, false);
+        if with_an && rng.chance(1, 2) {
+            // a parent that uses both classes of a later union, the two of different size (either may survive)
+            let pool: Vec<u64> = vec![1, 2];
+            let x = gen_term(&mut rng, 0, &pool);
+            let small = lst(vec![sym("rt"), lst(vec![sym("nd"), num(6), lst(vec![sym("a"), num(0), lst(vec![sym("m")])])]), x.clone()]);
+            let mid = lst(vec![sym("rt"), lst(vec![sym("nd"), num(6), lst(vec![sym("a"), num(0), lst(vec![sym("m")])])]), small.clone()]);
+            let big = lst(vec![sym("rt"), lst(vec![sym("nd"), num(7), lst(vec![sym("a"), num(0), lst(vec![sym("m")])]), lst(vec![sym("a"), num(0), lst(vec![sym("m")])])]), mid.clone(), x.clone()]);
+            let parent = lst(vec![sym("rt"), lst(vec![sym("nd"), num(7), lst(vec![sym("a"), num(0), lst(vec![sym("m")])]), lst(vec![sym("a"), num(0), lst(vec![sym("m")])])]), small.clone(), big.clone()]);
+            let nadd = ops.iter().filter(|o| o.head() == "add").count() as u64;
+            let base = terms.len() as u64;
+            terms.push(small); terms.push(big); terms.push(parent);
+            ops.push(lst(vec![sym("add"), num(base)])); ops.push(lst(vec![sym("add"), num(base + 1)])); ops.push(lst(vec![sym("add"), num(base + 2)]));
+            planted = Some(nadd + 2);
+            if rng.chance(1, 2) { ops.push(lst(vec![sym("union"), num(nadd), num(nadd + 1)])); } else { ops.push(lst(vec![sym("union"), num(nadd + 1), num(nadd)])); }
+        }
         let hs: Vec<usize> = ops.iter().filter(|o| o.head() == "add").map(|o| o.as_lst()[1].as_num() as usize).collect();
         let unions: Vec<(usize, usize)> = ops.iter().filter(|o| o.head() == "union").map(|o| (o.as_lst()[1].as_num() as usize, o.as_lst()[2].as_num() as usize)).collect();
         let mut probes = vec![sym("probes")];
@@ -105,9 +154,13 @@ pub fn gen(a: &Args) -> Vec<String> {
                 _ => { let pool: Vec<u64> = vec![1, 2, 3, 5]; let t2 = gen_term(&mut rng, 2, &pool); probes.push(lst(vec![sym("P"), sym("random"), sym("none"), t2])); }
             }
         }
+        if let Some(k) = planted { let t = terms[hs[k as usize]].clone(); probes.push(lst(vec![sym("P"), sym("literal"), num(k), t.clone()])); probes.push(lst(vec![sym("P"), lst(vec![sym("renamed"), num(20)]), num(k), rename_term(&t, &|s| s + 20)])); }
         let mut t = vec![sym("terms")]; t.extend(terms);
         let mut o = vec![sym("ops")]; o.extend(ops);
-        cases.push(lst(vec![sym("eg9"), lst(vec![sym("cfg"), num(if cfg!(feature = "checks") { 1 } else { 0 }), num(0)]), lst(t), lst(o), sym(&motif), lst(probes)]).to_string());
+        let cv = vec![sym("eg9"), lst(vec![sym("cfg"), num(if cfg!(feature = "checks") { 1 } else { 0 }), num(0)]), lst(t), lst(o), sym(&motif), lst(probes)];
+        let mut cv = cv;
+        if with_an { cv.push(lst(vec![sym("an"), num(*rng.pick(&[0u64, 2]))])); }
+        cases.push(lst(cv).to_string());
     }
     cases
 }
